@@ -568,3 +568,30 @@ fn kf_xlsb_declared_format_overrides_builtin_id() {
         r.get_value((0, 0))
     );
 }
+
+// C10 / C17 / R-UNESC
+
+#[test]
+fn kf_xlsx_format_code_with_quoted_literal_is_unescaped() {
+    // "Week of "mmm d  -- in XML the quotes are written &quot; whose `;` must not end the format scan
+    let styles = r#"<?xml version="1.0" encoding="UTF-8"?><styleSheet xmlns="http://schemas.openxmlformats.org/spreadsheetml/2006/main"><numFmts count="1"><numFmt numFmtId="164" formatCode="&quot;Week of &quot;mmm d"/></numFmts><cellXfs count="2"><xf numFmtId="0"/><xf numFmtId="164"/></cellXfs></styleSheet>"#;
+    let sh = sheet(r#"<row r="1"><c r="A1" s="1"><v>44197</v></c></row>"#);
+    let bytes = rezip(&minimal_xlsx(&sh, None, None), &[("xl/styles.xml", styles.as_bytes().to_vec())]);
+    let mut wb: Xlsx<_> = Xlsx::new(Cursor::new(bytes)).unwrap();
+    let r = wb.worksheet_range("Sheet1").unwrap();
+    assert_eq!(r.get_value((0, 0)), Some(&Data::DateTime(ExcelDateTime::new(44197.0, ExcelDateTimeType::DateTime, false))));
+}
+
+#[test]
+fn kf_xlsx_table_column_name_is_unescaped() {
+    let bytes = temperature_with_table(|t| {
+        let i = t.find("<tableColumn ").unwrap();
+        let j = t[i..].find("name=\"").unwrap() + i + 6;
+        let k = t[j..].find('"').unwrap() + j;
+        format!("{}R&amp;D &lt;1&gt;{}", &t[..j], &t[k..])
+    });
+    let mut wb: Xlsx<_> = Xlsx::new(Cursor::new(bytes)).unwrap();
+    wb.load_tables().unwrap();
+    let t = wb.table_by_name("Temperature").unwrap();
+    assert_eq!(t.columns()[0], "R&D <1>");
+}
